@@ -1,5 +1,5 @@
 """What MANIFEST.json claims, per property.  Regenerate with tools/gen_manifest.py."""
-HOOK_COMMITS = ['e38642af8bb57e13d8133c6525e60cfe4faea74d', 'b395fad1f530024d94a2a788917b89c4abaae02a']
+HOOK_COMMITS = ['e38642af8bb57e13d8133c6525e60cfe4faea74d', 'b395fad1f530024d94a2a788917b89c4abaae02a', '926dd8595986af044d5503aa2e8e192329688786']
 NOTES = ("Technique: machine-checked proof in Coq 8.16 about a Gallina model; the model is tied to /repo on every run by "
          "(a) definitions regenerated from the source by tools/cxx2v.py where available and (b) a byte-exact correspondence check "
          "between the OCaml extraction of the model and a C++ harness linked against a fresh build of /repo's working tree. "
